@@ -152,6 +152,8 @@ def r6_timer_wakeups(ctx):
 
 
 def run(ctx):
+    from .C05 import r9_timer_resolution
+    r9_timer_resolution(ctx, rule='C06.R5')   # (shared with C05.R9)
     r5_runtime_turn_per_event(ctx)
     r6_timer_wakeups(ctx)
     r1_drain(ctx)
